@@ -19,7 +19,7 @@ def specs_sequential(nlines, step, sigs=("KILL", "TERM", "INT"), variants=("plai
 
 def specs_concurrent():
     return [(e2.concurrent_two(v), {}) for v in ("plain", "p1fails", "term-waiter", "int-waiter", "kill-holder", "term-holder")] + [
-        (e2.concurrent_three(), {})]
+        (e2.concurrent_three(), {}), (e2.inherited_ignore("INT"), {}), (e2.inherited_ignore("TERM"), {})]
 
 
 def validate(histories):
